@@ -173,6 +173,12 @@ type embargo struct {
 	c      *capnp.Client
 	p      *capnp.ClientPromise
 	lifted chan struct{}
+
+	// liftRef is a second reference to c that lift resolves the promise
+	// with.  c itself is released by Shutdown, which runs as soon as the
+	// embargoed client has no more users, possibly before the disembargo
+	// has looped back; lift must still have a live client to fulfill with.
+	liftRef *capnp.Client
 }
 
 // embargo creates a new embargoed client, stealing the reference.
@@ -181,8 +187,9 @@ type embargo struct {
 func (c *Conn) embargo(client *capnp.Client) (embargoID, *capnp.Client) {
 	id := embargoID(c.embargoID.next())
 	e := &embargo{
-		c:      client,
-		lifted: make(chan struct{}),
+		c:       client,
+		lifted:  make(chan struct{}),
+		liftRef: client.AddRef(),
 	}
 	if int64(id) == int64(len(c.embargoes)) {
 		c.embargoes = append(c.embargoes, e)
@@ -206,7 +213,8 @@ func (c *Conn) findEmbargo(id embargoID) *embargo {
 // lift disembargoes the client.  It must be called only once.
 func (e *embargo) lift() {
 	close(e.lifted)
-	e.p.Fulfill(e.c)
+	e.p.Fulfill(e.liftRef)
+	e.liftRef.Release()
 }
 
 func (e *embargo) Send(ctx context.Context, s capnp.Send) (*capnp.Answer, capnp.ReleaseFunc) {
